@@ -10,7 +10,7 @@ from concurrent.futures import ThreadPoolExecutor
 VERIF = os.path.dirname(os.path.dirname(os.path.abspath(__file__)))
 COQ = os.path.join(VERIF, 'coq')
 BUILD = os.path.join(VERIF, 'build')
-EVID = os.path.join(VERIF, 'evidence')
+EVID = os.environ.get('VERIF_EVID', os.path.join(VERIF, 'evidence'))   # VERIF_EVID: only for evaluating seeded changes
 REPLAYS = os.path.join(VERIF, 'replays')
 CORPUS = os.path.join(VERIF, 'corpus')
 KNOWN = os.path.join(VERIF, 'known_findings.txt')
@@ -29,11 +29,13 @@ STD_AXIOMS_OK = {
 def import_pypose():
     """Import pypose from /repo's working tree, silencing its import-time warnings."""
     warnings.filterwarnings('ignore')
-    if '/repo' not in sys.path:
-        sys.path.insert(0, '/repo')
+    repo = os.environ.get('VERIF_REPO', '/repo')     # VERIF_REPO: scratch worktree used only to evaluate seeded changes
+    sys.path[:] = [p for p in sys.path if os.path.realpath(p or '.') != '/repo' or repo == '/repo']
+    if repo not in sys.path:
+        sys.path.insert(0, repo)
     import torch  # noqa
     import pypose as pp
-    assert os.path.realpath(pp.__file__).startswith('/repo/'), pp.__file__
+    assert os.path.realpath(pp.__file__).startswith(os.path.realpath(repo) + '/'), pp.__file__
     torch.set_num_threads(1)
     return pp
 
